@@ -19,7 +19,7 @@ from sim.terms import EX, XSD, T, key, skey, u
 
 ID = "C20"
 LEVEL = "fault_enumeration"
-TIERS = {"quick": {"runs": 640}, "thorough": {"runs": 16000, "wall_cap": 3300}}
+TIERS = {"quick": {"runs": 2400, "wall_cap": 600}, "thorough": {"runs": 40000, "wall_cap": 3300}}
 RULE = (
     "each evaluation is one seeded history (<=30 quick / <=50 thorough events) of a client driving SPARQLUpdateStore (autocommit on/off x "
     "dirty_reads on/off x GET/POST/POST_FORM x XML/JSON results x context_aware on/off) through Graph and ConjunctiveGraph handles: add, addN over "
@@ -162,6 +162,9 @@ def generate(seed, tier):
         # fault configuration: fault at the n-th request that reaches the transport
         for _ in range(g.randint(1, 3)):
             cfg["faults"].append({"at": g.randint(1, max(2, nsteps)), "kind": g.choice(["refuse", "http-500", "http-503", "lost-response", "truncate"]), "frac": g.random()})
+    if tier == "thorough" and g.chance(0.06):
+        cfg["enumerate"] = True
+        ops[:] = ops[:14] + [ops[-1]]
     return {"property": ID, "config": cfg, "ops": ops}
 
 
@@ -281,6 +284,25 @@ DEFK = ("u", DEFAULT)
 
 
 def execute(trace, ctx):
+    """thorough tier, `enumerate`: after the fault-free run the same history is re-run once per request index and per fault kind
+    (fault enumeration inside a seeded history sample)"""
+    cfg = trace["config"]
+    if not cfg.get("enumerate"):
+        return _execute(trace, ctx)
+    import copy as _copy
+
+    base = _copy.deepcopy(trace)
+    base["config"]["faults"] = []
+    nreq = _execute(base, ctx)
+    for n in range(1, nreq + 1):
+        for kind in ("refuse", "http-500", "lost-response", "truncate"):
+            t = _copy.deepcopy(base)
+            t["config"]["faults"] = [{"at": n, "kind": kind, "frac": 0.5}]
+            ctx.probe("enumerated-fault-positions")
+            _execute(t, ctx)
+
+
+def _execute(trace, ctx):
     import warnings
 
     import rdflib.plugins.stores.sparqlconnector as conn
@@ -605,6 +627,7 @@ def execute(trace, ctx):
         ctx.check((nq == 0) == (len(pending) == 0), "C20.queue", lambda: f"{where}: client queue has {nq} statement(s), the model has {len(pending)} unacknowledged edit(s)")
         ctx.log(k, f"{op.get('t')} g={op.get('g')} pending={len(pending)} fault={ep.last.get('fault') if ep.last else None}")
         ctx.state(_srt(model_quads()) if len(model_quads()) < 10 else len(model_quads()), len(pending), len(readers))
+    return ep.nreq
 
 
 def first_or_stop(r):
